@@ -73,7 +73,8 @@ func (s *V1Session) DecodeFromBytes(data []byte, df gopacket.DecodeFeedback) err
 	s.Sequence = binary.LittleEndian.Uint32(data[1:5])
 	s.ID = binary.LittleEndian.Uint32(data[5:9])
 	if s.AuthType == AuthenticationTypeNone {
-		// not expecting an auth code
+		// not expecting an auth code; clear any left by a previous decode
+		s.AuthCode = [16]byte{}
 		s.BaseLayer.Contents = data[:10]
 		s.BaseLayer.Payload = data[10:]
 		s.Length = uint8(data[9])
